@@ -67,6 +67,29 @@ pub fn to_offset(text: &str, pos: Pos) -> usize {
     off
 }
 
+/// False iff `pos` points inside a surrogate pair (outside the client envelope:
+/// the protocol gives such a position no meaning). Positions beyond the end of a
+/// line or of the text are fine (they clamp).
+pub fn representable(text: &str, pos: Pos) -> bool {
+    let starts = line_starts(text);
+    let line = pos.line as usize;
+    if line >= starts.len() {
+        return true;
+    }
+    let end = line_content_end(text, &starts, line);
+    let mut col = 0u32;
+    for c in text[starts[line]..end].chars() {
+        if col == pos.character {
+            return true;
+        }
+        if col > pos.character {
+            return false;
+        }
+        col += c.len_utf16() as u32;
+    }
+    col <= pos.character || col == pos.character
+}
+
 /// Applies one LSP content change to `text`.
 pub fn apply_change(text: &mut String, range: Option<(Pos, Pos)>, new: &str) {
     match range {
